@@ -1357,6 +1357,17 @@ impl<'a> Evaluator<'a> {
                     }
                 }
             }
+            // `it.next_if_eq(&x)` on an iterator held in a variable: consumes the head only when it equals x
+            Expr::MethodCall(mc) if mc.method == "next_if_eq" && mc.args.len() == 1 && matches!(&*mc.receiver, Expr::Path(p) if p.path.segments.len() == 1)
+                && matches!(self.eval(&mc.receiver, env), Ok(Val::List(_))) =>
+            {
+                let want = self.eval(&mc.args[0], env)?;
+                let place = self.place_of(&mc.receiver).unwrap();
+                match place_get_mut(env, &place) {
+                    Some(Val::List(l)) => Ok(if l.first() == Some(&want) { Val::some(l.remove(0)) } else { Val::none() }),
+                    _ => Err("iterator place lost".into()),
+                }
+            }
             // an iterator held in a variable is consumed by `next()`
             Expr::MethodCall(mc) if mc.method == "next" && mc.args.is_empty() && matches!(&*mc.receiver, Expr::Path(p) if p.path.segments.len() == 1)
                 && matches!(self.eval(&mc.receiver, env), Ok(Val::List(_))) =>
@@ -1399,7 +1410,7 @@ impl<'a> Evaluator<'a> {
                 *target = Val::List(sorted.into_iter().map(|(_, it)| it).collect());
                 Ok(Val::Unit)
             }
-            Expr::MethodCall(mc) if ["push", "append", "append_all", "extend", "insert", "remove", "push_str", "clear", "truncate", "pop", "sort", "reverse", "retain", "dedup", "swap", "drain"].contains(&mc.method.to_string().as_str())
+            Expr::MethodCall(mc) if ["push", "append", "append_all", "extend", "insert", "remove", "push_str", "clear", "truncate", "pop", "sort", "sort_unstable", "reverse", "retain", "dedup", "swap", "drain"].contains(&mc.method.to_string().as_str())
                 && self.place_of(&mc.receiver).is_some()
                 && matches!(self.eval(&mc.receiver, env), Ok(Val::List(_)) | Ok(Val::Str(_))) =>
             {
@@ -1463,7 +1474,7 @@ impl<'a> Evaluator<'a> {
                         l.dedup();
                         Ok(Val::Unit)
                     }
-                    (Val::List(l), "sort") if l.iter().all(|v| matches!(v, Val::Str(_))) || l.iter().all(|v| matches!(v, Val::Int { input: false, .. })) => {
+                    (Val::List(l), "sort") | (Val::List(l), "sort_unstable") if l.iter().all(|v| matches!(v, Val::Str(_))) || l.iter().all(|v| matches!(v, Val::Int { input: false, .. })) => {
                         l.sort_by(|a, b| match (a, b) {
                             (Val::Str(x), Val::Str(y)) => x.cmp(y),
                             (Val::Int { v: x, .. }, Val::Int { v: y, .. }) => x.cmp(y),
@@ -1569,7 +1580,7 @@ impl<'a> Evaluator<'a> {
                             return Ok(Val::List(items.chunks(n).filter(|c| name == "chunks" || c.len() == n).map(|c| Val::List(c.to_vec())).collect()));
                         }
                         "is_empty" => return Ok(Val::Bool(items.is_empty())),
-                        "first" => return Ok(items.first().cloned().map(Val::some).unwrap_or(Val::none())),
+                        "first" | "peek" => return Ok(items.first().cloned().map(Val::some).unwrap_or(Val::none())),
                         "get" if mc.args.len() == 1 => {
                             if let Ok(Val::Int { v, .. }) = self.eval(&mc.args[0], env) {
                                 return Ok(usize::try_from(v).ok().and_then(|i| items.get(i)).cloned().map(Val::some).unwrap_or(Val::none()));
@@ -2240,6 +2251,16 @@ impl<'a> Evaluator<'a> {
                     }
                 }
                 let r = self.eval(&cl.body, &mut e2)?;
+                // names the body declares itself (`let x = ..`) shadow the captured ones: they are the closure's own
+                struct Lets<'b> { out: &'b mut Vec<String> }
+                impl<'b> crate::model::DeepCb for Lets<'b> {
+                    fn local(&mut self, l: &syn::Local) {
+                        crate::model::collect_idents(&quote::ToTokens::to_token_stream(&l.pat), self.out);
+                    }
+                }
+                if let syn::Expr::Block(b) = &*cl.body {
+                    crate::model::deep_walk_block(&b.block, &mut Lets { out: &mut bound });
+                }
                 let keys: Vec<String> = env.keys().cloned().collect();
                 for k in keys {
                     if !bound.contains(&k) {
